@@ -48,4 +48,46 @@ theorem carried_tail (dflt : Aff) (S q2 later : List Tx) (t1 tS : Tracker) (P P'
   simp only
   rw [deltaLoop_acc, hsim, hBl]
 
+/-- the processed rows after a stretch of the loop: the transactions of the new deltas, most recent
+    first, on top of the earlier ones -/
+theorem loopPrefix_past :
+    ∀ (q r : List Tx) (t : Tracker) (past : List Tx) (acc : List Delta) (t2 : Tracker) (past2 : List Tx)
+      (acc2 : List Delta), loopPrefix t past acc q r = .inl (t2, past2, acc2) →
+      ∃ ext, acc2 = acc ++ ext ∧ past2 = (ext.map (·.tx)).reverse ++ past := by
+  intro q
+  induction q with
+  | nil =>
+    intro r t past acc t2 past2 acc2 h
+    simp only [loopPrefix, Sum.inl.injEq, Prod.mk.injEq] at h
+    obtain ⟨_, rfl, rfl⟩ := h
+    exact ⟨[], by simp, by simp⟩
+  | cons x qs ih =>
+    intro r t past acc t2 past2 acc2 h
+    rw [loopPrefix] at h
+    cases hstep : stepRow t x past (qs ++ r) with
+    | error e => rw [hstep] at h; cases h
+    | ok res =>
+      obtain ⟨d, t1, inj⟩ := res
+      rw [hstep] at h
+      simp only at h
+      cases hR : runInjected t1 (x :: past) (acc ++ [d]) inj (qs ++ r) with
+      | inr e => rw [hR] at h; cases h
+      | inl s =>
+        obtain ⟨ta, pa, acca⟩ := s
+        rw [hR] at h
+        simp only at h
+        have hinjS : ∀ y ∈ inj, IsSflaRow y := fun y hy => stepRow_inj hstep y hy
+        obtain ⟨_, out, ho1, ho2, ho3, _, _⟩ :=
+          explicit_sfla inj hinjS t1 t1 (ObsEq.refl _) (x :: past) [] (acc ++ [d]) [] (qs ++ r) [] ta pa acca hR
+        obtain ⟨ext, he1, he2⟩ := ih r ta pa acca t2 past2 acc2 h
+        refine ⟨d :: (out ++ ext), by simp [he1, ho1], ?_⟩
+        have hcar : out.map (·.tx) = inj := by
+          obtain ⟨outinj, hq1, hq2⟩ := runInjected_txs _ _ _ _ _ _ _ _ hR
+          have : out = outinj := by
+            have : acc ++ [d] ++ out = acc ++ [d] ++ outinj := by rw [← ho1, hq1]
+            exact List.append_cancel_left this
+          rw [this]; exact hq2
+        rw [he2, ho2]
+        simp [stepRow_tx hstep, hcar]
+
 end Acb
